@@ -55,11 +55,27 @@ fn observe<R: Read>(ctor: impl FnOnce() -> std::io::Result<R>, sizes: &[usize], 
             let (out, err) = drive(&mut rd, sizes);
             match err {
                 None => format!("END {} {}", hex(&out), unconsumed(rd)),
-                Some(c) => format!("ERR{} {}", c, hex(&out)),
+                Some(c) => {
+                    // reading on after an error must stay total as well (checked by the oracle)
+                    let mut buf = [0u8; 64];
+                    let again = std::panic::catch_unwind(std::panic::AssertUnwindSafe(|| {
+                        for _ in 0..4 {
+                            let _ = rd.read(&mut buf);
+                        }
+                    }));
+                    if again.is_err() {
+                        READ_AFTER_ERROR_PANIC.with(|f| f.set(true));
+                    }
+                    format!("ERR{} {}", c, hex(&out))
+                }
             }
         }
     }));
     r.unwrap_or_else(|_| "PANIC".to_string())
+}
+
+thread_local! {
+    static READ_AFTER_ERROR_PANIC: std::cell::Cell<bool> = const { std::cell::Cell::new(false) };
 }
 
 fn cursor_left(c: &Cursor<Vec<u8>>) -> usize {
@@ -108,6 +124,9 @@ pub fn exec(a: &[&str]) -> (String, String) {
 }
 
 fn oracle_no_panic(obs: &str) -> String {
+    if READ_AFTER_ERROR_PANIC.with(|f| f.replace(false)) {
+        return "FAIL read() after an error panics".into();
+    }
     if obs.starts_with("PANIC") { "FAIL decoder panicked".into() } else if obs.starts_with("ERR99") { "FAIL decoder does not terminate".into() } else if obs.starts_with("ERR98") { "FAIL endless output".into() } else { "ok".into() }
 }
 
@@ -273,6 +292,22 @@ pub fn gen(rng: &mut Rng, tier: &str, dist: &mut Dist) -> Vec<String> {
                 _ => cmds.push(format!("lzma2 {} none {} {}", *rng.pick(&[0u64, 16, 4096, 65536, 4294967280]), hex(&junk), ints(&sizes))),
             }
         }
+    }
+    // hand-made LZMA2 streams of stored chunks at the size-field borders (1, 2, 65535, 65536 bytes),
+    // first chunk with and without dictionary reset, followed by trailing bytes
+    for (k, sizes_list) in [vec![65536usize], vec![1, 65536, 2], vec![65535, 65536], vec![65536, 65536, 1]].iter().enumerate() {
+        let mut stream = Vec::new();
+        for (i, &sz) in sizes_list.iter().enumerate() {
+            stream.push(if i == 0 && k != 2 { 1u8 } else if i == 0 { 2u8 } else { *rng.pick(&[1u8, 2]) });
+            stream.push(((sz - 1) >> 8) as u8);
+            stream.push((sz - 1) as u8);
+            let d = gen_data_len(rng, "text", sz);
+            stream.extend_from_slice(&d);
+        }
+        stream.push(0);
+        stream.extend_from_slice(&[7, 7]);
+        dist.bump("lzma2.handmade_stored");
+        cmds.push(format!("lzma2 {} none {} {}", *rng.pick(&[65536u32, 4096, 1 << 20]), hex(&stream), ints(&gen_sizes(rng))));
     }
     cmds
 }
